@@ -55,6 +55,7 @@ type caseT struct {
 	Threads  [][]string `json:"threads"`
 	Schedule []int      `json:"schedule"`
 	Race     string     `json:"race_report,omitempty"`
+	FirstUse bool       `json:"first_use,omitempty"` // the shared objects changed when the call was made for the first time
 }
 
 type threadRec struct {
@@ -205,7 +206,7 @@ func run(c *core.Ctx) {
 		// first while the others read it: it has to be complete when constructed
 		if g.Snapshot != nil && sub == 0 {
 			if now := g.Snapshot(); now != initial {
-				c.Fail(core.Sig("group="+g.Name, "call="+o.Name, "shared-mutated-by-first-use"), caseT{Group: g.Name, Threads: [][]string{{o.Name}}}, 1000, initial, now)
+				c.Fail(core.Sig("group="+g.Name, "call="+o.Name, "shared-mutated-by-first-use"), caseT{Group: g.Name, Threads: [][]string{{o.Name}}, FirstUse: true}, 1000, initial, now)
 				initial = now
 			}
 		}
@@ -348,6 +349,18 @@ func replay(c *core.Ctx, raw json.RawMessage) {
 	for _, g := range Groups() {
 		if g.Name != cs.Group {
 			continue
+		}
+		if cs.FirstUse && g.Snapshot != nil && len(cs.Threads) == 1 && len(cs.Threads[0]) == 1 {
+			// freshly constructed shared objects, the one call, compare
+			initial := g.Snapshot()
+			reset()
+			if o := find(g, cs.Threads[0][0]); o != nil {
+				o.Run()
+			}
+			if now := g.Snapshot(); now != initial {
+				c.Fail(core.Sig("group="+g.Name, "call="+cs.Threads[0][0], "shared-mutated-by-first-use"), cs, 1000, initial, now)
+			}
+			return
 		}
 		alone := map[string]string{}
 		for _, o := range g.Ops {
